@@ -1,8 +1,8 @@
 (* C04 — no input makes a parser, decoder or accessor panic or hang.  In the model only the
    primitive slice/index/deref operations can yield [Panic]; every model function is a
    structurally terminating Gallina function (fuel only in the mapping loop). *)
-From Model Require Import Bytes Prim Tables Cert KAC Sig.
-From Proofs Require Import BytesLemmas PrimProofs Frame LeafProofs TableProofs KacRT OffProofs.
+From Model Require Import Bytes Prim Tables Cert KAC Mapping Sig LS RI.
+From Proofs Require Import BytesLemmas PrimProofs Frame LeafProofs TableProofs KacRT OffProofs MapRT NoPanicAll.
 Open Scope Z_scope.
 
 Theorem C04_fixed_size : forall n, NoPanic (take n).
@@ -41,3 +41,25 @@ Theorem C04_offline_signature : forall dt, NoPanic (fun d => read_offline_signat
 Proof. exact read_offline_NoPanic. Qed.
 Theorem C04_offline_sizes_never_negative : forall t, 0 <= off_spk_size t /\ 0 <= off_sig_size t.
 Proof. intros t. split; [apply off_spk_size_nonneg|apply off_sig_size_nonneg]. Qed.
+
+(* the mapping parser (the only loop whose bound is not structural) never exhausts its fuel:
+   every continuing iteration consumes at least one byte *)
+Theorem C04_mapping_parser_terminates : forall b, read_mapping b <> None.
+Proof. exact read_mapping_terminates. Qed.
+Theorem C04_mapping_pair_progress : forall r seen r' p e, parse_pair r seen = PPair r' p e -> (length r' < length r)%nat.
+Proof. exact parse_pair_progress. Qed.
+
+(* the composite structures: any bytes at all *)
+Theorem C04_router_address : NoPanic read_router_address.
+Proof. exact read_router_address_NoPanic. Qed.
+Theorem C04_router_info : NoPanic read_router_info.
+Proof. exact read_router_info_NoPanic. Qed.
+Theorem C04_lease_set : forall d, read_lease_set d <> Panic.
+Proof. exact read_lease_set_NoPanic. Qed.
+Theorem C04_lease_set2 : NoPanic read_lease_set2.
+Proof. exact read_lease_set2_NoPanic. Qed.
+Theorem C04_meta_lease_set : NoPanic read_meta_lease_set.
+Proof. exact read_meta_lease_set_NoPanic. Qed.
+Theorem C04_encrypted_lease_set : NoPanic read_encrypted_lease_set.
+Proof. exact read_encrypted_lease_set_NoPanic. Qed.
+Print Assumptions C04_encrypted_lease_set.
